@@ -204,6 +204,14 @@ fn run_seq(sink: &mut Sink, root: &Path, hash: Option<usize>, root_given: bool, 
                 pred = Some(format!("normal policy: cache age {:?}, requests {calls}", age_now.map(|x| x.1)));
             }
         }
+        // pinned or not: under the normal policy a copy older than an hour is never what takes effect
+        // without a request
+        if st.policy == FetchPolicy::Normal && root_given && calls == 0 && r.is_ok() {
+            let fresh = age_now.is_some_and(|(_, age)| age < 3600) && before.is_some();
+            if !fresh && pred.is_none() {
+                pred = Some(format!("normal policy: a cached copy of age {:?} took effect without a request (pin {:?})", age_now.map(|x| x.1), hash));
+            }
+        }
         // the file's real age now: ~0 if this fetch rewrote it, unchanged otherwise
         age_now = after.map(|id| {
             let age = std::fs::metadata(cache_path(root)).and_then(|m| m.modified()).ok().and_then(|m| SystemTime::now().duration_since(m).ok()).map_or(0, |d| d.as_secs());
